@@ -23,7 +23,7 @@ THEOREMS = [("AldorVerif.Props.C16", "AldorVerif.Mangle." + t) for t in (
     "global_collision_iff", "global_collision_nohash_iff", "global_names_injective_unlimited",
     "witness_collides", "witness_name", "global_names_injective_statement_refuted")] + \
     [("AldorVerif.Props.C16", "AldorVerif.CSplit." + t) for t in (
-    "split_partition", "split_off", "split_part_guarantee", "split_count",
+    "split_partition", "split_off", "split_part_guarantee", "split_count", "init_distinct",
     "split_names_distinct_partial", "split_names_distinct_short", "split_names_distinct",
     "split_names_distinct_statement_refuted")]
 
@@ -117,12 +117,12 @@ def kept_only(name, keptset):
 
 # ------------------------------------------------------------------ split requests
 def gen_splits(rng, thorough):
-    reqs = []
+    units = []                      # (smax, nglo, base, bodies)
     for smax in (-1, 0, 1, 2, 3, 4, 6):
         for nglo in (0, 2):
             for n in range(1, 4 if not thorough else 5):
                 for bodies in itertools.product((0, 1, 3), repeat=n):
-                    reqs.append((smax, nglo, "u", list(bodies)))
+                    units.append((smax, nglo, "u", list(bodies)))
     bases = ["u", "abcde001", "abcde002", "abcdefg", "abcd", "x12345678", "split001", "abcde0012", "abcde01", "abcde1000"]
     for _ in range(500 if not thorough else 6000):
         n = rng.choice((1, 2, 3, 5, 8, 13, 25, 40))
@@ -133,47 +133,83 @@ def gen_splits(rng, thorough):
             smax = 5
         if smax and tot // smax > 150:
             smax = max(smax, tot // 100)
-        reqs.append((smax, rng.choice((0, 0, 1, 3)), rng.choice(bases), bodies))
+        units.append((smax, rng.choice((0, 0, 1, 3)), rng.choice(bases), bodies))
     # units whose top-level program is small and whose other definitions are many and short:
     # here the statement estimate runs out before the definitions do (non-empty last part)
     for _ in range(400 if not thorough else 4000):
         n = rng.randint(4, 40)
         bodies = [rng.randint(0, 3)] + [rng.choice((0, 0, 1, 1, 2, 3)) for _ in range(n - 1)]
-        reqs.append((rng.randint(2, 30), rng.choice((0, 0, 1)), rng.choice(bases), bodies))
-    return ["split %d %d %s %s" % (s, g, hx(b), " ".join(map(str, bd))) for s, g, b, bd in reqs]
+        units.append((rng.randint(2, 30), rng.choice((0, 0, 1)), rng.choice(bases), bodies))
+    reqs = [("split" if k % 3 else "splitS",) + u for k, u in enumerate(units)]
+    # the boundary between "one file" and "split mode": smax = N-1, N, N+1 for the unit's own
+    # statement estimate N (gc0OverSMax and the loop condition must agree), both C dialects
+    seen = set()
+    for (_, nglo, base, bodies) in units:
+        key = (nglo, base, tuple(bodies))
+        if key in seen:
+            continue
+        seen.add(key)
+        N = sum(bodies) + nglo
+        for smax in (N - 1, N, N + 1):
+            for op in ("split", "splitS"):
+                reqs.append((op, smax, nglo, base, bodies))
+    # 1000..1300 parts: continuation file names beyond ...999
+    for j in range(4 if not thorough else 12):
+        smax = rng.choice((1, 1, 2, 3))
+        want = rng.randint(1000, 1300)                     # number of parts = (N-1) div smax
+        N = want * smax + 1 + rng.randint(0, smax - 1)
+        nglo = rng.choice((0, 3))
+        n = rng.choice((30, 120, 300))
+        bodies = [0] * n
+        for _ in range(N - nglo):
+            bodies[rng.randrange(n)] += 1
+        if j == 1:                                          # many definitions: the parts are not empty
+            bodies = [3] + [1] * (N - nglo - 3)
+        reqs.append(("split" if j % 2 else "splitS", smax, nglo, rng.choice(("bigunit", "u", "big")), bodies))
+    return ["%s %d %d %s %s" % (op, s, g, hx(b), " ".join(map(str, bd))) for op, s, g, b, bd in reqs]
 
 def check_split_output(toks, out):
-    """executable form of split_partition / split_part_guarantee / split_count / names on the
-    implementation's own answer.  Returns (ok, why, clash)"""
+    """executable form of split_partition / split_part_guarantee / split_count / init_distinct /
+    file names on the implementation's own answer.  Returns (ok, why, clash)"""
     smax = int(toks[1]); nglo = int(toks[2])
     base = bytes.fromhex(toks[3]).decode("latin-1") if toks[3] != "-" else ""
     bodies = [int(x) for x in toks[4:]]
     if smax < 0: smax = 1
     nb = len(bodies)
-    m = re.match(r"^(\d+)((?: \[[0-9,]*\])*) ;((?: [^ =]+=[0-9,]*)*)$", out)
+    m = re.match(r"^(\d+)((?: \[[0-9,]*/[0-9,]*\])*) ;((?: [^ =]+=[0-9,]*/[0-9,]*)*)$", out)
     if not m:
         return False, "unparsable answer", False
     n = int(m.group(1))
-    elems = [[int(x) for x in e.split(",") if x] for e in re.findall(r"\[([0-9,]*)\]", m.group(2))]
-    files = [(f.split("=")[0], [int(x) for x in f.split("=")[1].split(",") if x]) for f in m.group(3).split()]
+    ints = lambda s: [int(x) for x in s.split(",") if x]
+    elems = [(ints(a), ints(b)) for a, b in re.findall(r"\[([0-9,]*)/([0-9,]*)\]", m.group(2))]
+    files = []
+    for f in m.group(3).split():
+        nm, rest = f.split("=")
+        a, b = rest.split("/")
+        files.append((nm, ints(a), ints(b)))
     if len(elems) != n:
         return False, "list length", False
     nst = sum(bodies) + nglo
     over = smax > 0 and nst > smax
     if over:
-        if elems[0] != []:
+        if elems[0] != ([], []):
             return False, "header unit defines functions", False
-        parts = elems[1:-1]
+        parts = [e[0] for e in elems[1:-1]]
+        inits = [e[1] for e in elems[1:]]
+        if inits != [[k] for k in range(1, n - 1)] + [[0]]:
+            return False, "module initialisers of the units are not INIT__1.. in order and INIT__0 last", False
     else:
         if n != 1:
             return False, "more than one unit although the limit is not exceeded", False
         parts = []
-    final = elems[-1]
+        if elems[0][1] != [0]:
+            return False, "single unit does not define exactly INIT__0", False
+    final = elems[-1][0]
     if not final or final[0] != 0:
         return False, "constant 0 is not first in the last unit", False
     flat = [i for p in parts for i in p] + final[1:]
     if flat != list(range(1, nb)):
-        return False, "parts are not consecutive/disjoint/covering: %s" % flat, False
+        return False, "parts are not consecutive/disjoint/covering: %s" % flat[:50], False
     w = [b + 1 for b in bodies]
     if over:
         if len(parts) != (nst - 1) // smax:
@@ -183,18 +219,19 @@ def check_split_output(toks, out):
                 return False, "part %s keeps taking definitions beyond the limit" % p, False
             if sum(w[i] for i in p) < smax and final[1:]:
                 return False, "part %s stops under the limit although definitions remain" % p, False
-    # files
-    want = {}
-    fl = dict(files)
-    if len(fl) != len(files):
+    # files: names are distinct by construction of a directory listing; what a clash loses is content
+    if len({f[0] for f in files}) != len(files):
         return False, "duplicate file listed", False
-    got = sorted(i for _, idx in files for i in idx)
+    got = sorted(i for f in files for i in f[1])
+    goti = sorted(i for f in files for i in f[2])
     clash = False
     if over:
         names = [base + ".c"] + [base[:5] + "%03d" % k + ".c" for k in range(1, n - 1)]
         clash = len(set(names)) != len(names)
     if got != list(range(nb)):
-        return False, "written files define constants %s, expected 0..%d" % (got, nb - 1), clash
+        return False, "written files define constants %s, expected 0..%d" % (got[:50], nb - 1), clash
+    if goti != list(range(n - 1 if over else 1)):
+        return False, "written files define the initialisers %s, expected each of 0..%d exactly once" % (goti[:50], (n - 2) if over else 0), clash
     if len(files) != (n if n > 1 else 1):
         return False, "%d files for %d units" % (len(files), n), clash
     return True, "", clash
@@ -347,7 +384,7 @@ def run_part(ctx, build):
                     p = loc_cross.setdefault((L, mv), (kind, ix, k))
                     if (p[0], p[1]) != (kind, ix):
                         bad(k, "%s is the name of (%s,%d) and of (%s,%d)" % (mv, p[0], p[1], kind, ix), p[2]); bad(p[2], "cross-kind clash", k)
-        elif op == "split":
+        elif op in ("split", "splitS"):
             ok, why, clash = check_split_output(toks, co)
             if not ok:
                 if clash and co == m[k]:
@@ -648,6 +685,139 @@ def opt_flags(x):
 
 GDECL = re.compile(r'\(GDecl\s+\w+\s+"((?:[^"\\]|\\.)*)"\s+-?\d+\s+\d+\s+(\d)\s+(\w+)\)')
 
+
+# ------------------------------------------------------------------ statement estimate and emitted files
+def _sx_tokens(s):
+    i = 0; n = len(s)
+    while i < n:
+        c = s[i]
+        if c.isspace(): i += 1
+        elif c in "()": yield c; i += 1
+        elif c == '"':
+            j = i + 1
+            while s[j] != '"':
+                if s[j] == "\\": j += 1
+                j += 1
+            yield ("str", s[i + 1:j]); i = j + 1
+        elif c == "|":
+            j = s.index("|", i + 1); yield ("sym", s[i:j + 1]); i = j + 1
+        else:
+            j = i
+            while j < n and not s[j].isspace() and s[j] not in "()":
+                if s[j] == "\\": j += 1
+                j += 1
+            yield ("sym", s[i:j]); i = j
+
+def _sx_parse(s):
+    st = [[]]
+    for t in _sx_tokens(s):
+        if t == "(": st.append([])
+        elif t == ")":
+            x = st.pop(); st[-1].append(x)
+        else: st[-1].append(t)
+    return st[0][0]
+
+def _sx_head(x):
+    return x[0][1] if isinstance(x, list) and x and isinstance(x[0], tuple) else None
+
+def unit_shape(fm_text):
+    """(body sizes of the program definitions in order, number of non-program definitions) of a
+    dumped Foam unit: the inputs of the statement estimate `Guess num stmts here`"""
+    u = _sx_parse(fm_text)
+    ddef = [x for x in u[1:] if _sx_head(x) == "DDef"][0]
+    bodies, nglo = [], 0
+    for d in ddef[1:]:
+        rhs = d[2]
+        if _sx_head(rhs) == "Prog":
+            seq = rhs[-1]
+            if _sx_head(seq) != "Seq":
+                raise ValueError("program body is not a Seq")
+            bodies.append(len(seq) - 1)
+        else:
+            nglo += 1
+    return bodies, nglo
+
+def observe_c_files(d, unit):
+    """emitted <unit>*.c/.h files of directory d: {name: (CF indices, INIT indices defined)} and the
+    INIT__k_<unit> numbers mentioned by the file that defines INIT__0_<unit>"""
+    files, refs = {}, None
+    for fn in sorted(os.listdir(d)):
+        if not fn.endswith((".c", ".h")) or "-aldormain" in fn:
+            continue
+        cfs, inits, txt = [], [], open(os.path.join(d, fn), errors="replace").read()
+        for ln in txt.split("\n"):
+            m = re.match(r"CF(\d+)_", ln)
+            if m: cfs.append(int(m.group(1)))
+            m = re.match(r"INIT__(\d+)_", ln)
+            if m: inits.append(int(m.group(1)))
+        files[fn] = (cfs, inits)
+        if 0 in inits and fn.endswith(".c"):
+            refs = sorted({int(k) for k in re.findall(r"\bINIT__(\d+)_%s\b" % re.escape(unit), txt)})
+    return files, refs
+
+def parse_model_files(ans):
+    """file section of a `split` answer -> {name: (CF indices, INIT indices)}"""
+    out = {}
+    for f in ans.split(" ; ", 1)[1].split():
+        nm, rest = f.split("=")
+        a, b = rest.split("/")
+        out[nm] = ([int(x) for x in a.split(",") if x], [int(x) for x in b.split(",") if x])
+    return out
+
+def files_ok(files, refs, nb):
+    """every constant and every initialiser defined in exactly one file, every initialiser the
+    main unit mentions is defined"""
+    cfs = sorted(i for f in files.values() for i in f[0])
+    inits = sorted(i for f in files.values() for i in f[1])
+    if cfs != list(range(nb)):
+        return "constants defined by the files: %s..., expected each of 0..%d once" % (cfs[:30], nb - 1)
+    if len(set(inits)) != len(inits) or 0 not in inits:
+        return "an initialiser is defined twice or INIT__0 is missing: %s" % inits[:30]
+    if refs is None:
+        return "no file defines INIT__0"
+    miss = [k for k in refs if inits.count(k) != 1]
+    if miss:
+        return "the main unit mentions INIT__%d_… which is defined in %d files" % (miss[0], inits.count(miss[0]))
+    return ""
+
+def prog_big(n):
+    L = ['#include "aldor"', '#include "aldorio"', "import from MachineInteger;", ""]
+    for i in range(n):
+        body = ["\tt: MachineInteger := x + %d;" % i]
+        for j in range(3 + i % 5):
+            body.append("\tt := (t * %d + %d) rem 1000003;" % (j + 2, i + j))
+        if i:
+            body.append("\tif x > 0 then t := t + work%03d(x - 1);" % (i - 1))
+        body.append("\tt rem 1000003")
+        L.append("work%03d(x: MachineInteger): MachineInteger == {\n%s\n}" % (i, "\n".join(body)))
+    L.append("")
+    L.append("for i in 0..3 repeat stdout << work%03d i << newline;" % (n - 1))
+    L.append('stdout << work007 2 << " " << work000 1 << newline;')
+    return "\n".join(L) + "\n"
+
+def check_emitted(ctx, st, what, unit, d, smax, shape, opts, source):
+    """compare the files the compiler wrote in d with the model's prediction for this unit"""
+    bodies, nglo = shape
+    files, refs = observe_c_files(d, unit)
+    req = "split %d %d %s %s" % (smax, nglo, hx(unit), " ".join(map(str, bodies)))
+    mo = common.split_model(common.run_model("mangle", req + "\n"))[0][0]
+    want = parse_model_files(mo)
+    st["emitted_checked"] = st.get("emitted_checked", 0) + 1
+    st["emitted_files_max"] = max(st.get("emitted_files_max", 0), len(files))
+    why = files_ok(files, refs, len(bodies))
+    if files == want and not why:
+        return True
+    if why:
+        ctx.finding("mangle-e2e|split-files|%s|%s" % (" ".join(opts), what),
+                    "%s compiled with %s: %s" % (what, " ".join(opts), why),
+                    {"kind": "e2e", "program": what, "options": opts, "source": source, "why": why,
+                     "files": {k: v for k, v in list(files.items())[:40]}, "model_request": req})
+    else:
+        diff = [k for k in sorted(set(files) | set(want)) if files.get(k) != want.get(k)][:5]
+        ctx.corr_broken.append((NAME, "%s %s (e2e) ~ %s" % (what, " ".join(opts), req[:200]),
+                                str({k: files.get(k) for k in diff})[:300], str({k: want.get(k) for k in diff})[:300]))
+    return False
+
 def run_e2e(ctx, build, drv):
     top = common.scratch("aldor-verif-mangle-e2e-")
     rng = ctx.rng
@@ -704,6 +874,41 @@ def run_e2e(ctx, build, drv):
         # replay of the file-name clash
         fclash = ex.submit(compile_run, build, top, "fileclash", {"abcde001.as": PROG_OPERS}, ["-Csmax=20"], "abcde001.as")
         fnoclash = ex.submit(compile_run, build, top, "nofileclash", {"opersfile.as": PROG_OPERS}, ["-Csmax=20"], "opersfile.as")
+        # the boundary of split mode: smax = N-1, N, N+1 for the unit's own statement estimate N
+        shapes, bfuts = {}, {}
+        for pn, txt in progs:
+            if pn not in imports:
+                continue
+            try:
+                shapes[pn] = unit_shape(open(os.path.join(base[pn]["dir"], pn + ".fm"), errors="replace").read())
+            except Exception as e:
+                st.setdefault("shape_errors", []).append("%s: %s" % (pn, e)); continue
+            N = sum(shapes[pn][0]) + shapes[pn][1]
+            st.setdefault("estimates", {})[pn] = N
+            for smax in (N - 1, N, N + 1):
+                for dia in ("old", "standard"):
+                    o = ["-C" + dia, "-Csmax=%d" % smax]
+                    bfuts[(pn, smax, dia)] = ex.submit(compile_run, build, top, "%s-bnd-%d-%s" % (pn, smax, dia),
+                                                       {pn + ".as": txt}, o, pn + ".as", ("-Fx", "-Fc"))
+        # a unit that splits into more than 999 continuation files
+        big = None
+        for n in (72, 100, 150):
+            src = prog_big(n)
+            r0 = compile_run(build, top, "bigunit-default-%d" % n, {"bigunit.as": src}, [], "bigunit.as", ("-Fx", "-Ffm"))
+            st["runs"] += 1
+            if r0["rc_compile"] != 0 or r0["rc_run"] != 0:
+                ctx.finding("mangle-e2e|default|bigunit", "the %d-function program does not build and run with the default options: %s"
+                            % (n, r0["log"][-500:]), {"kind": "e2e", "program": "bigunit", "source": src, "result": r0})
+                break
+            shp = unit_shape(open(os.path.join(r0["dir"], "bigunit.fm"), errors="replace").read())
+            if sum(shp[0]) + shp[1] > 1002:
+                big = (src, r0, shp); break
+        bigc = bigx = None
+        if big:
+            st["bigunit_estimate"] = sum(big[2][0]) + big[2][1]
+            bigc = ex.submit(compile_run, build, top, "bigunit-c", {"bigunit.as": big[0]}, ["-Csmax=1"], "bigunit.as", ("-Fc",))
+            if ctx.tier == "thorough":
+                bigx = ex.submit(compile_run, build, top, "bigunit-x", {"bigunit.as": big[0]}, ["-Cstandard", "-Csmax=1"], "bigunit.as", ("-Fx", "-Fc"))
 
         for (pn, x), f in futs.items():
             r = f.result()
@@ -735,6 +940,65 @@ def run_e2e(ctx, build, drv):
                      "result": {k: r.get(k) for k in ("rc_compile", "rc_run", "stdout", "stderr", "log")}, "expected_stdout": b["stdout"]})
             if not same or len(ctx.cov["samples"]) < 6:
                 ctx.sample({"module": "mangle-e2e", "program": pn, "options": opt_flags(x), "same_as_default": same})
+        # boundary runs
+        st["boundary_runs"] = 0; st["boundary_same"] = 0
+        for (pn, smax, dia), f in bfuts.items():
+            r = f.result()
+            st["runs"] += 1; st["boundary_runs"] += 1
+            b = base[pn]
+            o = ["-C" + dia, "-Csmax=%d" % smax]
+            N = st["estimates"][pn]
+            same = r["rc_compile"] == 0 and r["rc_run"] == b["rc_run"] and r["stdout"] == b["stdout"]
+            if same:
+                st["boundary_same"] += 1
+            else:
+                ctx.finding("mangle-e2e|%s|%s" % (" ".join(o), pn),
+                    "program %s (statement estimate %d) built with %s differs from the default build: compile rc %s, run rc %s, stdout %r; %s"
+                    % (pn, N, " ".join(o), r["rc_compile"], r["rc_run"], r["stdout"][:120], r["log"][-500:]),
+                    {"kind": "e2e", "program": pn, "options": o, "source": dict(progs)[pn], "estimate": N,
+                     "result": {k: r.get(k) for k in ("rc_compile", "rc_run", "stdout", "stderr", "log")}, "expected_stdout": b["stdout"]})
+            if r["rc_compile"] == 0:
+                # independent expectation at the boundary: one file up to N, header + two files below
+                names = sorted(x for x in os.listdir(r["dir"]) if x.endswith((".c", ".h")) and "-aldormain" not in x)
+                exp = [pn + ".c"] if smax >= N or smax <= 0 else None
+                if exp is not None and names != exp:
+                    ctx.finding("mangle-e2e|split-files|%s|%s" % (" ".join(o), pn),
+                                "program %s with estimate %d and %s is written to %s, expected %s" % (pn, N, " ".join(o), names, exp),
+                                {"kind": "e2e", "program": pn, "options": o, "source": dict(progs)[pn], "files": names})
+                if exp is None and (pn + ".h") not in names:
+                    ctx.finding("mangle-e2e|split-files|%s|%s" % (" ".join(o), pn),
+                                "program %s with estimate %d and %s is not split: %s" % (pn, N, " ".join(o), names),
+                                {"kind": "e2e", "program": pn, "options": o, "source": dict(progs)[pn], "files": names})
+                check_emitted(ctx, st, pn, pn, r["dir"], smax, shapes[pn], o, dict(progs)[pn])
+        # more than 999 continuation files
+        if bigc is not None:
+            r = bigc.result()
+            st["runs"] += 1
+            N = st["bigunit_estimate"]
+            if r["rc_compile"] != 0:
+                ctx.finding("mangle-e2e|-Csmax=1 -Fc|bigunit", "aldor -Fc -Csmax=1 fails on the %d-statement program: %s" % (N, r["log"][-500:]),
+                            {"kind": "e2e", "program": "bigunit", "options": ["-Csmax=1", "-Fc"], "source": big[0]})
+            else:
+                names = [x for x in os.listdir(r["dir"]) if x.endswith(".c")]
+                st["bigunit_c_files"] = len(names)
+                st["bigunit_beyond_999"] = sorted(x for x in names if re.match(r"bigun\d{4,}\.c$", x))[:3]
+                if len(names) != N:           # N-1 parts + the last unit
+                    ctx.finding("mangle-e2e|split-files|-Csmax=1|bigunit",
+                                "the %d-statement program with -Csmax=1 is written to %d .c files, expected %d (names beyond ...999 must stay distinct)"
+                                % (N, len(names), N), {"kind": "e2e", "program": "bigunit", "options": ["-Csmax=1"], "source": big[0]})
+                check_emitted(ctx, st, "bigunit", "bigunit", r["dir"], 1, big[2], ["-Csmax=1", "-Fc"], big[0])
+        if bigx is not None:
+            r = bigx.result()
+            st["runs"] += 1
+            st["bigunit_full_build"] = "compile rc %s run rc %s wall %s" % (r["rc_compile"], r["rc_run"], r.get("wall"))
+            if r["rc_compile"] != 0 or r["rc_run"] != big[1]["rc_run"] or r["stdout"] != big[1]["stdout"]:
+                ctx.finding("mangle-e2e|-Cstandard -Csmax=1|bigunit",
+                            "the program split into %d files does not build, link and run like the default build: compile rc %s, run rc %s, stdout %r; %s"
+                            % (st["bigunit_estimate"], r["rc_compile"], r["rc_run"], r["stdout"][:100], r["log"][-500:]),
+                            {"kind": "e2e", "program": "bigunit", "options": ["-Cstandard", "-Csmax=1"], "source": big[0],
+                             "result": {k: r.get(k) for k in ("rc_compile", "rc_run", "stdout", "stderr", "log")}, "expected_stdout": big[1]["stdout"]})
+            elif r["rc_compile"] == 0:
+                check_emitted(ctx, st, "bigunit", "bigunit", r["dir"], 1, big[2], ["-Cstandard", "-Csmax=1"], big[0])
         # collision replay
         rc_, ri_ = fcol.result(), fint.result()
         st["runs"] += 2
